@@ -10,6 +10,13 @@ scenario's own clean-up (blocks, descriptors, mappings, IPC names, TLS keys).
 
   crash / sanitizer report / blocks outstanding / double close   -> VIOLATION, replay `scen NAME MODE K`,
                                                                      signature <function>@alloc<k>
+  an object that existed before a call reads back differently    -> VIOLATION (outcome class X): after every call line the harness
+  after it, an IPC name of a live object has gone, a container      reads every slot object back through the public getters (lists, trees,
+  contradicts itself                                                hash tables, INI files, errors, strings, socket addresses, sockets,
+                                                                     shm contents, shm buffers, mappings, /dev/shm names) and compares
+                                                                     with the state before the call; only the changes the call is allowed
+                                                                     to make with the outcome it reported are accepted
+Scenarios also script failures of system calls (socket, fcntl(F_SETFL), sem_open, shm_open, ftruncate, mmap, dlopen, pthread_*).
   trace or outcome differs from the model, C itself clean        -> correspondence break (a missing
                                                                      allocation site in the model shows here)
 Thorough adds the long scenarios and random failure subsets (bit masks)."""
@@ -108,6 +115,7 @@ def body(chk, exe, scratch, proof_ok, detail):
     groups = {}        # signature -> [what of the first, ops...]
     base_leak_owners, always_leaking = {}, set()
     symptom_sig = {}
+    base_symptom = {}
 
     def report(sig, op, what):
         g = groups.setdefault(sig, [what, []])
@@ -136,7 +144,8 @@ def body(chk, exe, scratch, proof_ok, detail):
             what = "C18 [signature %s]: scenario %s, allocation %d failing (%s): the process crashed in call [%s]: %s\nmodel: %s" % (
                 sig, name, k, mode, at.group(1) if at else "?", at.group(2) if at else c, m[:200])
             if sig is None:
-                sig = "%s@scripted-syscall-failure" % resfam.func_of(at.group(1) if at else "?")
+                armed = " trace=" not in c and re.search(r"sysfail", "".join(base_trace.get(name, "")))
+                sig = "%s@%s" % (resfam.func_of(at.group(1) if at else "?"), "scripted-syscall-failure" if armed else "no-failure")
                 what = what.replace("[signature None]", "[signature %s]" % sig)
             report(sig, op, what)
             chk.bump("crash")
@@ -159,7 +168,25 @@ def body(chk, exe, scratch, proof_ok, detail):
                 sig = "%s@alloc%d" % (resfam.func_of(lost[0][0]), lost[0][1])
         if "X" in fc.get("out", ""):
             i = fc["out"].index("X")
-            bad.append("call #%d of the scenario (hash_check): an object that existed before the failed call no longer yields the digest of the bytes it absorbed" % (i + 1))
+            calls = [t.strip("[]").replace(",", " ") for t in c.split(" trace=", 1)[1].split() if t.startswith("[")] if " trace=" in c else []
+            line = calls[i] if i < len(calls) else "?"
+            changed = [x.split(":") for x in fc.get("chg", "").strip("[]").split(",") if x.count(":") == 2]
+            if line.startswith("hash_check") and not any(int(x[0]) == i + 1 for x in changed):
+                bad.append("call #%d of the scenario (hash_check): an object that existed before the failed call no longer yields the digest of the bytes it absorbed" % (i + 1))
+            else:
+                here = [x for x in changed if int(x[0]) == i + 1]
+                objs = ", ".join("the %s object in slot %s" % (x[2].rstrip("!"), x[1]) for x in here if not x[2].endswith("!"))
+                broken = ", ".join("the %s object in slot %s" % (x[2].rstrip("!"), x[1]) for x in here if x[2].endswith("!"))
+                lostname = ", ".join("the %s object in slot %s" % (x[2][:-5], x[1]) for x in here if x[2].endswith("-name"))
+                if lostname:
+                    bad.append("call #%d of the scenario (`%s`): the IPC name of %s, which existed before the call, has been removed from the system although no handle of that name was freed" % (i + 1, line, lostname))
+                    objs = ", ".join("the %s object in slot %s" % (x[2], x[1]) for x in here if not x[2].endswith("!") and not x[2].endswith("-name"))
+                if objs:
+                    bad.append("call #%d of the scenario (`%s`): %s, which existed before the call, does not read back as before it (contents compared through the public getters)" % (i + 1, line, objs))
+                if broken or not (objs or lostname):
+                    bad.append("call #%d of the scenario (`%s`): %s contradicts itself after the call (its count and its contents, or the result of the call and a look-up, disagree)" % (i + 1, line, broken or "the object the call works on"))
+                if sig is None:
+                    sig = "%s@object-changed" % resfam.func_of(line.replace(" ", ","))
         if fc.get("badfree", "0") != "0":
             bad.append("free of a pointer the allocator did not hand out (%s)" % fc.get("badfree"))
         if fc.get("badclose", "0") != "0":
@@ -182,7 +209,16 @@ def body(chk, exe, scratch, proof_ok, detail):
             # the same symptom seen earlier under a single failing allocation keeps that signature when it shows again
             # under "all allocations from k on fail" (where the first failing allocation says little)
             symptom = re.sub(r"\d+", "#", "; ".join(bad))
-            if mode in ("from", "mask") and symptom in symptom_sig:
+            if mode == "none":
+                # nothing was refused: the symptom belongs to the scenario's scripted system-call failure (or to the plain call sequence)
+                if sig is None:
+                    calls = [t.strip("[]") for t in c.split(" trace=", 1)[1].split() if t.startswith("[")] if " trace=" in c else []
+                    armed = [(j, t.split(",")[1]) for j, t in enumerate(calls) if t.startswith("sysfail,") and j + 1 < len(calls)]
+                    sig = "%s@sysfail-%s" % (resfam.func_of(calls[armed[0][0] + 1]), armed[0][1]) if armed else "%s@no-failure" % name
+                base_symptom[(name, symptom)] = sig
+            elif (name, symptom) in base_symptom:
+                sig = base_symptom[(name, symptom)]       # shows without any refused allocation as well
+            elif mode in ("from", "mask") and symptom in symptom_sig:
                 sig = symptom_sig[symptom]
             else:
                 symptom_sig.setdefault(symptom, sig)
@@ -227,10 +263,12 @@ def body(chk, exe, scratch, proof_ok, detail):
     chk.cov["outcome_classes"] = worst
     chk.cov["rule"] = ("every scenario x every allocation index k x {k fails once, every allocation from k on fails} (complete), "
                        "plus the run without failure; thorough adds long scenarios and random failure masks. "
+                       "After every call of every run the contents of all live objects are read back and compared with the state before the call. "
                        "A case is one (scenario, mode, k); it is non-trivial when an allocation was actually refused in it.")
     chk.assumptions += ["the tracking allocator is installed through p_mem_set_vtable: allocations that bypass the table (libc internals of fopen, opendir, dlopen, getaddrinfo, sem_open) are not failed",
                         "x86-64 Linux, POSIX back-ends as configured; prwlock-general.c is compiled next to the configured rwlock under renamed symbols",
                         "threads are held at their start until the creating call has returned (deterministic order of allocator calls)",
+                        "value-level probes: objects without an allocation-free or transparent getter are opaque (locks, semaphores, threads, loaders, TLS keys; crypto hashes are probed by the explicit hash_check call)",
                         "the model has the repaired p_shm_free (finding F5 is judged by C07/C20): the leftover mapping of %s is not counted here" % "/".join(F5_SCENARIOS)]
     return resfam.finish(chk)
 
